@@ -48,3 +48,32 @@ theorem refit_predict (o : NObj) (st : Strategy) (sp : Int) (wl : Option Int) (y
       | other => simp [fitWindow, resolveWindow] at hw
 
 end SkVerif.Lem.History
+
+namespace SkVerif.Lem.World
+open SkVerif.World
+
+variable {S Op Out : Type}
+
+/-- frame property: what object `i` answers, and the state it ends in, depend only on the calls made on `i` -/
+theorem run_eq_runLocal (m : Machine S Op Out) (w : Nat → S) (ops : List (Nat × Op)) (i : Nat) :
+    ((run m w ops).1 i, ((run m w ops).2.filter (fun r => r.1 == i)).map (·.2))
+      = runLocal m (w i) ((ops.filter (fun r => r.1 == i)).map (·.2)) := by
+  induction ops generalizing w with
+  | nil => rfl
+  | cons hd tl ih =>
+    obtain ⟨j, op⟩ := hd
+    simp only [run]
+    by_cases h : j = i
+    · subst h
+      have := ih (fun k => if k = j then (m.step (w j) op).1 else w k)
+      simp only [↓reduceIte] at this
+      simp only [List.filter_cons, beq_self_eq_true, ↓reduceIte, List.map_cons, runLocal]
+      rw [← this]
+    · have := ih (fun k => if k = j then (m.step (w j) op).1 else w k)
+      have hij : ¬ (i = j) := fun e => h e.symm
+      simp only [hij, ↓reduceIte] at this
+      have hb : (j == i) = false := by simp [h]
+      simp only [List.filter_cons, hb, Bool.false_eq_true, ↓reduceIte]
+      exact this
+
+end SkVerif.Lem.World
